@@ -758,6 +758,36 @@ func C19(c *Ctx) {
 		case "(*math/big.Rat).SetFrac64":
 			name = "math/big.NewRat"
 			a, b2 = w.ExprOf(call.Common().Args[1]), w.ExprOf(call.Common().Args[2])
+		case "(*math/big.Rat).Mul":
+			// a factor kept in a package-level *big.Rat that nothing modifies (`var ratio = big.NewRat(UndPow, 1)`), used as it
+			// is or inverted into a fresh value
+			for _, arg := range call.Common().Args[1:] {
+				inv := false
+				if ic, ok := arg.(*ssa.Call); ok {
+					if isc := ic.Common().StaticCallee(); isc != nil && isc.String() == "(*math/big.Rat).Inv" && len(ic.Common().Args) == 2 {
+						if _, fresh := ic.Common().Args[0].(*ssa.Alloc); fresh {
+							arg, inv = ic.Common().Args[1], true
+						}
+					}
+				}
+				ld, ok := arg.(*ssa.UnOp)
+				if !ok {
+					continue
+				}
+				g, ok := ld.X.(*ssa.Global)
+				if !ok || !ratOnlyRead(w, g) {
+					continue
+				}
+				iv := w.InitOnlyValue(g)
+				if iv == nil || !(iv.Op == "call" && strings.HasSuffix(iv.Name, "math/big.NewRat") && len(iv.Args) == 2) {
+					continue
+				}
+				name = "math/big.NewRat"
+				a, b2 = iv.Args[0], iv.Args[1]
+				if inv {
+					a, b2 = b2, a
+				}
+			}
 		}
 		switch name {
 		case "math/big.NewRat":
@@ -1077,4 +1107,38 @@ func acceptsZero(c *Ctx, f *ssa.Function) {
 	if n == 0 {
 		r.OK("A2.accepts-zero", fn(f)+"|none", w.Pos(f.Pos()), "the conversion path has no test on the sign of the amount (parsing alone decides what is refused)")
 	}
+}
+
+// ratOnlyRead: the package-level *big.Rat g is never the receiver (the value written) of a math/big method and is never
+// reassigned outside its initialiser: a shared constant ratio. `ratio.Inv(ratio)` modifies it for every later caller.
+func ratOnlyRead(w *ir.World, g *ssa.Global) bool {
+	for _, f := range w.Funcs {
+		if f.Pkg != g.Pkg {
+			continue
+		}
+		for _, b := range f.Blocks {
+			for _, in := range b.Instrs {
+				switch x := in.(type) {
+				case *ssa.Store:
+					if x.Addr == ssa.Value(g) && f.Name() != "init" {
+						return false
+					}
+				case *ssa.Call:
+					sc := x.Common().StaticCallee()
+					if sc == nil || sc.Pkg == nil || sc.Pkg.Pkg.Path() != "math/big" || len(x.Common().Args) == 0 {
+						continue
+					}
+					if ld, ok := x.Common().Args[0].(*ssa.UnOp); ok && ld.X == ssa.Value(g) && sc.Signature.Recv() != nil {
+						// methods that only read their receiver
+						switch sc.Name() {
+						case "Cmp", "Sign", "String", "FloatString", "RatString", "Num", "Denom", "IsInt", "Float64", "Float32":
+						default:
+							return false
+						}
+					}
+				}
+			}
+		}
+	}
+	return true
 }
